@@ -251,6 +251,22 @@ def check(prop, tier, seed, replay=None):
                 if bad and len(run.violations) < 5:
                     run.violation(f"{bad[0]} (character U+{ord(ch):04X} {pos} at width {W})",
                                   dict(kind="string", width=W, text=[ord(c) for c in text], ok=True))
+    # the verdict is a function of (width, text) alone: the same text at another width, and the
+    # vectors again in another order, must get the verdict they got in isolation
+    cross = []
+    for n in [0, 1, 30, 31, 32, 33, 100, 254, 255, 256, 257]:
+        for ch in ("x", "é"):
+            cross.append(ch * n)
+    order = [(W, t) for t in cross for W in (256, 32, 2, 32, 256)] + [(W, t) for t in cross for W in (2, 32, 256)]
+    rng.shuffle(cross)
+    order += [(W, t) for W in (256, 32) for t in cross]
+    for W, text in order:
+        ok = len(text) < W
+        n_eval += 1
+        bad = check_one(W, text, ok)
+        if bad and len(run.violations) < 5:
+            run.violation(f"{bad[0]} (text of length {len(text)} at width {W} after the same text at other widths)",
+                          dict(kind="string-history", width=W, text=[ord(c) for c in text], ok=ok))
     n_r, bad_r = read_side(rng, thorough)
     n_f, bad_f = through_fields(rng)
     n_eval += n_r + n_f
